@@ -210,3 +210,81 @@ Proof.
   apply (find_period_sorted_sound d p (isort (at_window t)) bit v Hd Hp); try assumption.
   apply Forall_forall. intros x Hx. apply isort_in in Hx. rewrite Forall_forall in Hall. auto.
 Qed.
+
+(* ------------------------------------------------------------ the ring holds the last 258 samples *)
+
+Definition at_wf (t : autotune) : Prop :=
+  length (at_pulses t) = 258%nat /\
+  ((0 <= at_count t < 258 /\ at_head t = 0 /\ at_tail t = at_count t) \/
+   (at_count t = 258 /\ at_head t = at_tail t /\ 0 <= at_head t < 258)).
+
+(* the window after one more sample: append, dropping the oldest when full *)
+Definition push_window (w : list pulse) (x : pulse) : list pulse :=
+  (if Nat.ltb (length w) 258 then w else tl w) ++ [x].
+
+Lemma map_nth_shift {A} (d0 : A) : forall l k n, (k + n <= length l)%nat ->
+  map (fun i => nth (k + i) l d0) (seq 0 n) = firstn n (skipn k l).
+Proof.
+  induction l as [|a l IH]; intros k n H; simpl in H.
+  - assert (n = 0)%nat by lia. subst. destruct k; reflexivity.
+  - destruct k.
+    + destruct n; [reflexivity|]. simpl. f_equal. rewrite <- seq_shift, map_map.
+      apply (IH 0%nat n). lia.
+    + simpl. apply (IH k n). lia.
+Qed.
+
+Lemma upd_firstn_le {A} (l : list A) i x : forall n, (n <= i)%nat -> firstn n (upd l i x) = firstn n l.
+Proof.
+  revert i; induction l as [|a l IH]; intros i n H; [destruct i, n; reflexivity|].
+  destruct i, n; simpl; try reflexivity; try lia. f_equal. apply IH. lia.
+Qed.
+
+Lemma upd_firstn_S {A} (l : list A) i x : (i < length l)%nat -> firstn (S i) (upd l i x) = firstn i l ++ [x].
+Proof.
+  revert i; induction l as [|a l IH]; intros i H; simpl in H; [lia|].
+  destruct i; simpl; [reflexivity|]. f_equal. apply IH. lia.
+Qed.
+
+Lemma upd_skipn_S {A} (l : list A) i x : skipn (S i) (upd l i x) = skipn (S i) l.
+Proof.
+  revert i; induction l as [|a l IH]; intros i; [destruct i; reflexivity|].
+  destruct i; [reflexivity|]. simpl. apply IH.
+Qed.
+
+Lemma seq_add_map k n : seq k n = map (fun j => (k + j)%nat) (seq 0 n).
+Proof.
+  induction k as [|k IH]; [rewrite map_id; reflexivity|].
+  rewrite <- seq_shift, IH, map_map. reflexivity.
+Qed.
+
+Lemma skipn_cons_nth {A} (l : list A) i d0 : (i < length l)%nat -> skipn i l = nth i l d0 :: skipn (S i) l.
+Proof.
+  revert i; induction l as [|a l IH]; intros i H; simpl in H; [lia|].
+  destruct i; [reflexivity|]. simpl. apply IH. lia.
+Qed.
+
+Lemma at_window_small t : at_wf t -> at_count t < 258 ->
+  at_window t = firstn (Z.to_nat (at_count t)) (at_pulses t).
+Proof.
+  intros (Hl & [(Hc & Hh & Ht)|(Hc & _)]) Hlt; [|lia].
+  unfold at_window, at_N, c_maxAutoTuneSamples. rewrite Hh.
+  pose proof (map_nth_shift pulse0 (at_pulses t) 0 (Z.to_nat (at_count t)) ltac:(rewrite Hl; lia)) as E.
+  simpl in E. rewrite <- E.
+  apply map_ext_in. intros i Hi. apply in_seq in Hi. f_equal. lia.
+Qed.
+
+Lemma at_window_full t : at_wf t -> at_count t = 258 ->
+  at_window t = skipn (Z.to_nat (at_head t)) (at_pulses t) ++ firstn (Z.to_nat (at_head t)) (at_pulses t).
+Proof.
+  intros (Hl & [(Hc & _)|(Hc & Ht & Hh)]) Heq; [lia|].
+  unfold at_window, at_N, c_maxAutoTuneSamples. rewrite Hc.
+  set (h := Z.to_nat (at_head t)).
+  replace (Z.to_nat 258) with ((258 - h) + h)%nat by (unfold h; lia).
+  rewrite seq_app, map_app. f_equal.
+  - rewrite <- (firstn_all (skipn h (at_pulses t))) at 1. rewrite skipn_length, Hl.
+    rewrite <- (map_nth_shift pulse0 (at_pulses t) h (258 - h)) by (rewrite Hl; unfold h; lia).
+    apply map_ext_in. intros i Hi. apply in_seq in Hi. f_equal. unfold h in *. lia.
+  - pose proof (map_nth_shift pulse0 (at_pulses t) 0 h ltac:(rewrite Hl; unfold h; lia)) as E.
+    simpl in E. rewrite <- E.
+    rewrite (seq_add_map (0 + (258 - h)) h), map_map. apply map_ext_in. intros i Hi. apply in_seq in Hi. f_equal. unfold h in *. lia.
+Qed.
